@@ -6,3 +6,4 @@ import DsdVerif.Props.C13More
 import DsdVerif.Props.C13Doc
 import DsdVerif.Props.C13Layout
 import DsdVerif.Props.C13Tabs
+import DsdVerif.Props.C13Sound
